@@ -56,6 +56,14 @@ def run(chk: common.Check):
         v = tuple(rng.uniform(-5, 5) for _ in range(3))
         triples.append((rng.uniform(-7, 7), a, v))
 
+    # vectors of every magnitude (the rotation is linear in the vector): zero, far below and far above the range where squares are representable
+    n_scaled = 0
+    for v0 in ((0.0, 0.0, 0.0), (1.0, 2.0, 3.0), (-0.7, 0.1, 2.2)):
+        for sc in (1.0, 1e-170, 1e-300, 1e160, 1e300):
+            for a in ((0.3, -1.2, 2.0), (0.0, 0.0, -1.0), (1.0, 1.0, 0.0)):
+                triples.append((rng.choice(thetas[1:]), a, tuple(x * sc for x in v0)))
+                n_scaled += 1
+
     # ---------------------------------------------------------------- translator validation (G tie)
     def vec(d):
         return va.Vector(d["x"], d["y"], d["z"])
@@ -98,9 +106,15 @@ def run(chk: common.Check):
     found = {}
     worst = 0.0
     for t, a, v in triples:
-        got = va.rotate_vector_around_an_axis(t, va.Vector(*a), va.Vector(*v))
+        try:
+            got = va.rotate_vector_around_an_axis(t, va.Vector(*a), va.Vector(*v))
+        except Exception as ex:   # noqa: BLE001
+            sig = f"exception:{type(ex).__name__}"
+            found.setdefault(sig, (sig, f"rotate({t!r}, axis={a}, v={v}) raises {type(ex).__name__}: {ex}", {"theta": t, "axis": a, "vec": v}))
+            continue
         want = rodrigues(t, a, v)
-        nv = math.sqrt(sum(x * x for x in v)) or 1.0
+        mx = max(abs(x) for x in v)
+        nv = (mx * math.sqrt(sum((x / mx) ** 2 for x in v))) if mx > 0 else 1.0
         err = max(abs(g - w) for g, w in zip((got.x, got.y, got.z), want)) / nv
         chk.count(1, key=("axis", pattern(a), round(t, 3) in (0.0,)))
         if not (err <= TOL):
